@@ -1569,3 +1569,146 @@ func enumPaths(fn *ssa.Function, budget int, visit func(PathResult)) bool {
 }
 
 func constantInt64(v constant.Value) (int64, bool) { return constant.Int64Val(constant.ToInt(v)) }
+
+// pathsBetween enumerates the feasible acyclic paths from the start of block
+// from to block to (within one loop iteration: a path that revisits a block
+// ends). Phis are resolved by the edge taken; a branch whose condition
+// resolves to a constant is followed one way; decisions that contradict an
+// earlier decision on the same value — or an earlier nil / non-nil decision
+// on the same resolved operand — are pruned.
+func pathsBetween(fn *ssa.Function, from, to *ssa.BasicBlock, budget int, visit func(blocks []*ssa.BasicBlock, facts []Fact)) bool {
+	count := 0
+	ok := true
+	type env map[*ssa.Phi]ssa.Value
+	resolveIn := func(e env) func(ssa.Value) ssa.Value {
+		return func(v ssa.Value) ssa.Value {
+			for i := 0; i < 64; i++ {
+				if p, isPhi := v.(*ssa.Phi); isPhi {
+					if x, has := e[p]; has {
+						v = x
+						continue
+					}
+				}
+				break
+			}
+			return v
+		}
+	}
+	type nilFact struct {
+		v     ssa.Value
+		isNil bool
+	}
+	var dfs func(b, pred *ssa.BasicBlock, e env, facts []Fact, nils []nilFact, path []*ssa.BasicBlock, onPath map[*ssa.BasicBlock]bool)
+	dfs = func(b, pred *ssa.BasicBlock, e env, facts []Fact, nils []nilFact, path []*ssa.BasicBlock, onPath map[*ssa.BasicBlock]bool) {
+		if !ok || onPath[b] {
+			return
+		}
+		onPath[b] = true
+		defer delete(onPath, b)
+		path = append(path, b)
+		e2 := e
+		if pred != nil {
+			idx := -1
+			for i, p := range b.Preds {
+				if p == pred {
+					idx = i
+				}
+			}
+			copied := false
+			for _, in := range b.Instrs {
+				phi, isPhi := in.(*ssa.Phi)
+				if !isPhi {
+					break
+				}
+				if !copied {
+					e2 = env{}
+					for k, v := range e {
+						e2[k] = v
+					}
+					copied = true
+				}
+				e2[phi] = resolveIn(e)(phi.Edges[idx])
+			}
+		}
+		if b == to {
+			count++
+			if count > budget {
+				ok = false
+				return
+			}
+			visit(append([]*ssa.BasicBlock(nil), path...), append([]Fact(nil), facts...))
+			return
+		}
+		res := resolveIn(e2)
+		switch t := b.Instrs[len(b.Instrs)-1].(type) {
+		case *ssa.If:
+			v, truth := res(t.Cond), true
+			for {
+				if u, isU := v.(*ssa.UnOp); isU && u.Op == token.NOT {
+					v, truth = res(u.X), !truth
+					continue
+				}
+				break
+			}
+			if cv, isC := v.(*ssa.Const); isC && cv.Value != nil && cv.Value.Kind() == constant.Bool {
+				if constant.BoolVal(cv.Value) == truth {
+					dfs(b.Succs[0], b, e2, facts, nils, path, onPath)
+				} else {
+					dfs(b.Succs[1], b, e2, facts, nils, path, onPath)
+				}
+				return
+			}
+			for _, want := range []bool{true, false} {
+				contradict := false
+				for _, f := range facts {
+					if f.Cond == v && f.Truth != want {
+						contradict = true
+					}
+				}
+				nn := nils
+				if bo, isB := v.(*ssa.BinOp); isB && (bo.Op == token.EQL || bo.Op == token.NEQ) && (isNilConst(bo.X) || isNilConst(bo.Y)) {
+					x := bo.X
+					if isNilConst(bo.X) {
+						x = bo.Y
+					}
+					x = res(x)
+					isNil := want == (bo.Op == token.EQL)
+					for _, n := range nils {
+						if n.v == x && n.isNil != isNil {
+							contradict = true
+						}
+					}
+					nn = append(append([]nilFact(nil), nils...), nilFact{x, isNil})
+				}
+				// equality with a global error value implies non-nil
+				if bo, isB := v.(*ssa.BinOp); isB && bo.Op == token.EQL && want {
+					for _, pr := range [][2]ssa.Value{{bo.X, bo.Y}, {bo.Y, bo.X}} {
+						if u, isU := pr[1].(*ssa.UnOp); isU {
+							if _, isG := u.X.(*ssa.Global); isG {
+								x := res(pr[0])
+								for _, n := range nils {
+									if n.v == x && n.isNil {
+										contradict = true
+									}
+								}
+							}
+						}
+					}
+				}
+				if contradict {
+					continue
+				}
+				nf := append(append([]Fact(nil), facts...), Fact{Cond: v, Truth: want, If: t})
+				if want == truth {
+					dfs(b.Succs[0], b, e2, nf, nn, path, onPath)
+				} else {
+					dfs(b.Succs[1], b, e2, nf, nn, path, onPath)
+				}
+			}
+		case *ssa.Jump:
+			dfs(b.Succs[0], b, e2, facts, nils, path, onPath)
+		}
+	}
+	dfs(from, nil, env{}, nil, nil, nil, map[*ssa.BasicBlock]bool{})
+	return ok
+}
